@@ -1042,7 +1042,7 @@ def gen_op(rng, kind=None, depth=2, partial=0.2, value=None):
     if k == "tag":
         s = gen_sum(rng, depth)
         n = s[1] if s[0] == "@usum" else len(s[1])
-        return ["@tag", rng.randint(0, n - 1) if n and rng.random() < 0.85 else rng.choice([n, n + 1, 0]), s]
+        return ["@tag", rng.randint(0, n - 1) if n and rng.random() < 0.85 else rng.choice([n, n + 1, 0, -1, -n - 1]), s]
     if k == "dfg":
         return ["@dfg", row(), opt(row()), gen_reqs(rng)]
     if k == "cfg":
